@@ -1058,8 +1058,10 @@ namespace
                 LeafState& ls   = env.leaves[3];
                 Leaf<3>    leaf(&ls);
                 size_t     log0 = slab.log().size();
+                const char* tag = "typed-unique_base_ptr";
                 if (vf::allow_known("F7") && op.b % 2)
                 {
+                    tag = "typed-unique_base_ptr>65535"; // the only signature the recorded finding F7 covers
                     // recorded finding F7 (probe only): allocator_polymorphic_deleter keeps the
                     // size of the derived type in an unsigned short
                     fm::unique_base_ptr<Base, Leaf<3>> bp = fm::allocate_unique<BigDerived>(leaf);
@@ -1078,9 +1080,9 @@ namespace
                     (void)bp;
                 }
                 if (slab.last_error())
-                    fail("typed-unique_base_ptr", slab.last_error());
+                    fail(tag, slab.last_error());
                 else if (slab.log().size() != log0 + 2)
-                    fail("typed-unique_base_ptr", "expected one allocation and one release");
+                    fail(tag, "expected one allocation and one release");
                 ++n_typed;
             }
             }
